@@ -18,14 +18,43 @@ theorem c16_rule (g : Int) (r : Row) (t : Int) (hn : 2 ≤ r.nfields) (ht : r.ts
     (hg : g ≤ t) (hmax : t < g + 300 * 4294967296) :
     ∃ slot, rowRecord g r = some ⟨slot, match r.reading with | .unparsable => 3 | .small => 2 | .scaled v => v⟩ ∧
       (slot : Int) = (t - g) / 300 ∧ g + 300 * (slot : Int) ≤ t ∧ t < g + 300 * (slot : Int) + 300 := by
-  sorry
+  have hs : toSlot g t = some ((t - g) / 300).toNat := by
+    unfold toSlot
+    rw [if_neg (by omega)]
+    simp only
+    rw [if_neg (by omega)]
+  refine ⟨((t - g) / 300).toNat, ?_, ?_, ?_, ?_⟩
+  · unfold rowRecord
+    rw [if_neg (by omega), ht]
+    simp only [hs]
+    cases r.reading <;> rfl
+  · omega
+  · omega
+  · omega
 
 /-- Rows with an unusable timestamp (unparseable, before genesis, beyond the
 slot range) and rows without a reading column are skipped. -/
 theorem c16_skipped (g : Int) (r : Row)
     (h : r.nfields < 2 ∨ r.ts = none ∨ (∃ t, r.ts = some t ∧ (t < g ∨ t ≥ g + 300 * 4294967296))) :
     rowRecord g r = none := by
-  sorry
+  unfold rowRecord
+  rcases h with h | h | ⟨t, ht, h⟩
+  · rw [if_pos h]
+  · split
+    · rfl
+    · rw [h]
+  · have hs : toSlot g t = none := by
+      unfold toSlot
+      rcases h with h | h
+      · rw [if_pos h]
+      · split
+        · rfl
+        · simp only
+          rw [if_pos (by omega)]
+    split
+    · rfl
+    · rw [ht]
+      simp only [hs]
 
 /-- The reader is total: every list of rows yields a list of records, at most
 one per row and in row order (no row shape can crash it - in the model a crash
@@ -33,11 +62,15 @@ would be a missing case). -/
 theorem c16_total (g : Int) (rows : List Row) :
     (readEnergy g rows).length ≤ rows.length ∧
     readEnergy g rows = (rows.map (rowRecord g)).filterMap id := by
-  sorry
+  unfold readEnergy
+  refine ⟨List.length_filterMap_le _ _, ?_⟩
+  rw [List.filterMap_map]
+  rfl
 
 /-- Rows are independent: the records of a concatenation are the concatenation of the records. -/
 theorem c16_append (g : Int) (a b : List Row) : readEnergy g (a ++ b) = readEnergy g a ++ readEnergy g b := by
-  sorry
+  unfold readEnergy
+  exact List.filterMap_append
 
 example : readEnergy 1000 [⟨2, none, .small⟩, ⟨2, some 1000, .small⟩, ⟨1, some 1300, .small⟩,
     ⟨2, some 1599, .unparsable⟩, ⟨2, some 999, .scaled 7⟩, ⟨2, some 1600, .scaled 77⟩]
